@@ -161,7 +161,7 @@ PROPS["C05"] = dict(
     corpus_entries=EXT_SINGLE + EXT_LISTS + EXT_TAGGED + EXT_CONTENT,
     mutate_entries=EXT_SINGLE + EXT_LISTS + EXT_TAGGED, mutate_budget=40, mutate_sources=500,
     small_scope=[(e, [], 1, 3) for e in EXT_SINGLE + EXT_LISTS + EXT_TAGGED + EXT_CONTENT],
-    expect_entries=EXT_SINGLE + EXT_LISTS + EXT_TAGGED,
+    expect_entries=EXT_SINGLE + EXT_LISTS + EXT_TAGGED, spec={"@exttype": "spec.@exttype"},
     thorough_mult=15,
 )
 DTLS_ENTRIES = ["parse_dtls_record_header", "parse_dtls_message_handshake", "parse_dtls_message_changecipherspec",
@@ -278,7 +278,7 @@ PROPS["C01"] = dict(
               ("kx", 100), ("ct", 80), ("ext", 200), ("extwrong", 80), ("extlist", 80), ("dtls", 150), ("dtlsmulti", 50)],
     corpus_entries=None, mutate_entries=None, mutate_budget=25, mutate_sources=400,
     small_scope=sum((PROPS[q].get("small_scope", []) for q in ("C02", "C03", "C04", "C05", "C10", "C13", "C14", "C16") if q in PROPS), []),
-    expect_entries=[], thorough_mult=10, alloc_bound=(1024, 8192),
+    expect_entries=[], thorough_mult=6, small_scope_thorough_full=1, alloc_bound=(1024, 8192),
     configs=["default", "nostd"], configs_quick=["default"],
 )
 PROPS["C18"] = dict(
@@ -286,7 +286,7 @@ PROPS["C18"] = dict(
               ("ext", 150), ("extlist", 50), ("dtls", 100), ("dtlsmulti", 30)],
     corpus_entries=None, mutate_entries=None, mutate_budget=15, mutate_sources=200,
     small_scope=[(e, a, 1, 2) for (e, a, _f, _s) in sum((PROPS[q].get("small_scope", []) for q in ("C02", "C03", "C04", "C05", "C10", "C13", "C14", "C16") if q in PROPS), [])],
-    expect_entries=[], thorough_mult=10,
+    expect_entries=[], thorough_mult=6, small_scope_thorough_full=1,
     configs=["default", "nostd", "serialize"], configs_quick=["default", "nostd", "serialize"],
 )
 PROPS["C07"] = dict(
@@ -651,6 +651,7 @@ def _ext_type_sweep(tier, rng):
             elif t not in known: exp = "(ok @_+0 (Unknown %d %s))" % (t, sl)
             for e in EXT_SINGLE:
                 out.append(Case("%s %s" % (e, enc.hex()), exp, "typesweep"))
+            if d is datas[0]: out.append(Case("@exttype %s" % enc.hex(), "", "typesweep"))
     return out
 
 def _enum_sweeps(tier, rng):
